@@ -12,7 +12,7 @@ FILES = ['src/succinct/bit_vector.rs', 'src/succinct/rank_select/mod.rs', 'src/s
 
 def run(ctx):
     fx = ctx.facts("default")
-    rc.accessors(ctx, fx, FILES, r'^select[01](_.*)?$', "R-GUARD.refusal")
+    rc.accessors(ctx, fx, FILES, r'^select[01](_.*)?$', "R-GUARD.refusal", all_success=True)
     ctx.floor("R-GUARD.refusal.accessors", 15)
     rc.unsafe_sinks(ctx, fx, FILES, "R-GUARD")
     ctx.floor("R-GUARD.entries", 60)
